@@ -48,6 +48,7 @@ type result struct {
 	Counters     map[string]int64 `json:"counters"`
 	Samples      []any            `json:"samples"`
 	Notes        []string         `json:"notes"`
+	Inconclusive []string         `json:"inconclusive"`
 	HashFile     string           `json:"hash_file"`
 	NHashes      int              `json:"n_hashes"`
 }
@@ -742,6 +743,9 @@ func doCheck(id, tier string, seed uint64) int {
 					samples = append(samples, s)
 				}
 			}
+		}
+		for _, n := range r.Inconclusive {
+			out.incon = append(out.incon, r.Flavour+": "+n)
 		}
 		for _, n := range r.Notes {
 			if len(notes) < 20 {
